@@ -151,8 +151,9 @@ Location locate_hunk(const std::vector<Line>& content, const Hunk& hunk, bool ig
             return {};
 
         auto hunk_matches_starting_from_line = [&](LineNumber line) {
-            // All of the old lines of the hunk (including any which fuzz is ignoring) must fit inside of the file.
-            if (static_cast<size_t>(line) + old_line_count > content.size())
+            // All of the old lines of the hunk must fit inside of the file, other than those at its end which fuzz is
+            // ignoring: whether the file has such a line at all matters as little as what it says.
+            if (static_cast<size_t>(line) + old_line_count > content.size() + static_cast<size_t>(suffix_fuzz))
                 return false;
 
             line += prefix_fuzz;
